@@ -162,6 +162,7 @@ Print Assumptions repr_analysis_exact.
    combination of allowed input dtypes and ANY input values, the run completes: no in-place
    operation violates the casting rule, no NaN is stored into an integer array, every
    add, subtract, multiply, power is carried out in float64 (never in an integer dtype, never in float16/float32),
+   no sum/mean accumulates in float16/float32,
    no lossy store, no write through a conditionally shared buffer *)
 Theorem repr_safe : forall V fop wrap cast ffun kfun vnan oval p n allowed,
   analyze p n allowed = true ->
@@ -169,6 +170,34 @@ Theorem repr_safe : forall V fop wrap cast ffun kfun vnan oval p n allowed,
   exists s', run V fop wrap cast ffun kfun vnan oval p (init V ins) = ROk s' /\ hz s' = 0.
 Proof. exact analyze_sound. Qed.
 Print Assumptions repr_safe.
+
+(* the same with an individual set of possible dtypes per input (an input that another analysed
+   function produces has the dtype that function returns; masks are bool; weights float64) *)
+Theorem repr_safe_typed : forall V fop wrap cast ffun kfun vnan oval p sets,
+  analyze_typed p sets = true ->
+  forall ins : list (dt * V), Forall2 (fun x s => In (fst x) s) ins sets ->
+  exists s', run V fop wrap cast ffun kfun vnan oval p (init V ins) = ROk s' /\ hz s' = 0.
+Proof. exact analyze_typed_sound. Qed.
+Print Assumptions repr_safe_typed.
+
+(* composition: when the analysis says that variable v (the array a function returns) always has
+   dtype d, every concrete run is safe and ends with v of dtype d *)
+Theorem repr_result_dtype : forall V fop wrap cast ffun kfun vnan oval p sets v d,
+  returns_dtype p sets v d = true ->
+  forall ins : list (dt * V), Forall2 (fun x s => In (fst x) s) ins sets ->
+  exists s' l c, run V fop wrap cast ffun kfun vnan oval p (init V ins) = ROk s' /\ hz s' = 0 /\
+                 get V s' v = Some (l, c) /\ cdt c = d.
+Proof. exact returns_dtype_sound. Qed.
+Print Assumptions repr_result_dtype.
+
+(* reductions: np.sum of a float32 array accumulates in float32 (rejected), of an int16 or float64
+   array in int64 / float64 (accepted); after astype(float) every input is accepted *)
+Example reduce_float32_rejected :
+  accepts [IReduce 0] [DF32] = false /\ accepts [IReduce 0] [DI16] = true /\
+  accepts [IReduce 0] [DF64] = true /\
+  analyze [IAsType 1 0 DF64; IReduce 1] 1 allowed_inputs = true /\
+  returns_dtype [IAsType 1 0 DF64] [allowed_inputs] 1 DF64 = true.
+Proof. vm_compute. repeat split; reflexivity. Qed.
 
 (* a rejection is never spurious: some allowed combination of input dtypes misbehaves *)
 Theorem repr_analysis_complete : forall V fop wrap cast ffun kfun vnan oval p n allowed,
